@@ -308,7 +308,7 @@ func vh_C01_layoutsigs(a []int) {
 }
 
 // vh_C15_keymaterial: a key whose declared type contradicts its material is an error, not a crash.
-// a = {declared type (0 rsa,1 ecdsa,2 ed25519), material (0 rsa,1 ecdsa,2 ed25519 hex,3 garbage), operation (0 verify,1 sign), wrapper}
+// a = {declared type (0 rsa,1 ecdsa,2 ed25519), material (0 rsa,1 ecdsa,2 ed25519 hex,3 garbage,4 short hex,5 good public half with odd-sized private half), operation (0 verify,1 sign), wrapper}
 func vh_C15_keymaterial(a []int) {
 	typ := []string{"rsa", "ecdsa", "ed25519"}[a[0]]
 	k := Key{KeyID: "abcd", KeyType: typ, Scheme: "x"}
@@ -319,6 +319,11 @@ func vh_C15_keymaterial(a []int) {
 		k.KeyVal = KeyVal{Public: vhEcdsaPub, Private: vhEcdsaPriv}
 	case 2:
 		k.KeyVal = KeyVal{Public: vhEdPub1, Private: vhEdPriv1}
+	case 4:
+		// well-formed hexadecimal, but not the size of an Ed25519 key
+		k.KeyVal = KeyVal{Public: "abcd", Private: vPick("short-private", "abcd", vhEdPriv1[:62], "")}
+	case 5:
+		k.KeyVal = KeyVal{Public: vhEdPub1, Private: vPick("odd-private", "abcd", vhEdPriv1[:64], vhEdPriv1+"00")}
 	default:
 		k.KeyVal = KeyVal{Public: "garbage", Private: "zz"}
 	}
@@ -342,7 +347,7 @@ func vh_C15_keymaterial(a []int) {
 		err = md.Sign(k)
 	}
 	vObserve("keymaterial", err == nil)
-	if a[0] != a[1] {
+	if a[0] != a[1] && a[1] < 4 {
 		vAssert("C15.mismatched-key-material-is-an-error", err != nil)
 	}
 	vReach("C15.end")
